@@ -626,7 +626,7 @@ CHAIN = {
                 what="the C02 trees plus a configuration varying id (0, 1, u64::MAX), payload (empty, text, 0x00 0xFF) and what the "
                      "child returns; compared: the exact sequence of entry-point invocations (extra/missing/misplaced replies) and "
                      "id, payload and Ok/Err carried by each Reply"),
-    "C04": dict(cfgs=["events", "eventsE", "reply"], focus="events,data,replyev,replydata,respcount",
+    "C04": dict(cfgs=["events", "eventsE", "reply"], thorough_also_quick=["events"], focus="events,data,replyev,replydata,respcount",
                 need=["ok", "reply_on_success", "instantiate", "migrate", "sudo"],
                 what="attributes (none/one/two incl. empty value), custom events (none, without and with attributes, two) and data "
                      "(absent, present-empty, present) at every node, every reply_on mode, entry kinds execute/instantiate/migrate/"
@@ -658,7 +658,7 @@ CHAIN = {
                 what="Migrate / UpdateAdmin / ClearAdmin sent by the admin, a former admin, strangers and contracts (as sub-messages, "
                      "incl. a contract migrating itself) on contracts with and without admin, sequences of up to 3; compared: "
                      "Ok/Err, code id and admin afterwards, storage kept, which code serves the next call"),
-    "C13": dict(cfgs=["strings"], focus="ok,events,raw,post,seq,panic",
+    "C13": dict(cfgs=["strings"], thorough_also_quick=["strings"], focus="ok,events,raw,post,seq,panic",
                 need=["err", "ok", "migrate", "sudo", "instantiate"],
                 what="every string of up to 2 (thorough: 3) characters over the classes ASCII space, tab, Unicode space, underscore, "
                      "1-byte and 2-byte letter as response attribute key, event attribute key and event type, at execute / "
@@ -801,6 +801,10 @@ def check_chain(tier, ev):
         mc_and_replay(ev, "mc/MC_Chain.tla", cfg, "chain", 3400, [], coverage=False,
                       env={"MTV_FOCUS": c["focus"], "MTV_ALWAYS": c.get("always", "")},
                       need_features=c["need"] if name == c["cfgs"][0] else ())
+        if tier == "thorough" and name in c.get("thorough_also_quick", ()):
+            # the thorough menu varies one node at a time over a larger alphabet; the quick menu's full product is kept
+            mc_and_replay(ev, "mc/MC_Chain.tla", f"mc/MC_Chain_{name}_quick.cfg", "chain", 3400, [], coverage=False,
+                          env={"MTV_FOCUS": c["focus"], "MTV_ALWAYS": c.get("always", "")})
     ev.exhaustive = True
     if pid in TRACE_FOCUS:
         chain_trace_stage(ev, 40 if tier == "quick" else 400, 25)
